@@ -839,6 +839,11 @@ pub(crate) async fn commit_transaction(
         };
 
         manifest.version = target_version;
+        if matches!(transaction.operation, Operation::Restore { .. }) {
+            // Row ids handed out by versions newer than the restored one stay
+            // reachable through time travel, never hand them out again.
+            manifest.next_row_id = manifest.next_row_id.max(dataset.manifest.next_row_id);
+        }
 
         let previous_writer_version = &dataset.manifest.writer_version;
         // The versions of Lance prior to when we started writing the writer version
